@@ -188,6 +188,8 @@ def build_estimator(case, tol):
         amax = np.abs(X.T @ (y - y.mean() * fi)).max() / n
     alpha = float(amax * case["frac"]) or 1.
     kw = dict(alpha=alpha, tol=tol, fit_intercept=fi, max_iter=200)
+    if est in ("Lasso", "ElasticNet", "WeightedLasso", "GroupLasso", "MultiTaskLasso"):
+        kw["max_epochs"] = 2000     # bound the cost of ill-conditioned (duplicated-column) cases; non-converged = inconclusive
     if est == "Lasso":
         return skglm.Lasso(**kw), alpha
     if est == "ElasticNet":
